@@ -6,13 +6,15 @@
 (*                                                                         *)
 (*        accepted  =>  WellFormed(candidate)                              *)
 (*                      /\ WellFormed(the array it produced)               *)
-(*                      /\ the exercise of every safe accessor, iterator   *)
-(*                         and kernel over the result did not panic/crash  *)
+(*                      /\ the exercise of every safe accessor, iterator,  *)
+(*                         formatter and kernel over the result did not    *)
+(*                         crash (a signal = it left its buffers)          *)
 (*                                                                         *)
 (* Events (harness/p/c09):                                                 *)
-(*  [ev |-> "cand", entry, cls, fam, corr, aligns, accepted, d, has_got,   *)
-(*   got, after, note]                                                     *)
-(*     entry   the validating entry point ("ArrayData::try_new", ...)      *)
+(*  [ev |-> "cand", e, entry, cls, fam, corr, aligns, accepted, d,         *)
+(*   has_got, got, after, crashed, panicked, note]                         *)
+(*     entry   the validating entry point ("ArrayData::try_new", ...),     *)
+(*             e its short code                                            *)
 (*     cls     "data" (ArrayData level: try_new, builder build, validate_  *)
 (*             full, from_ffi + validate_full), "typed" (typed try_new and *)
 (*             checked buffer constructors; a constructor panic = reject)  *)
@@ -20,8 +22,11 @@
 (*     aligns  the entry point re-aligns buffers itself                    *)
 (*     d       the candidate, dumped from its parts *before* the call      *)
 (*     got     dump of the result (when has_got)                           *)
-(*     after   "ok" | "panic: .." | "signal n" | "none" (not accepted)     *)
-(*  [ev |-> "candbatch", entry, corr, accepted, schema, cols, nrows]       *)
+(*     after   outcome of the exercise: "ok" | "panic: [stage] .." |       *)
+(*             "signal n" | "none" (not accepted); crashed / panicked say  *)
+(*             which.  A panic is inside the buffers: it is an observation *)
+(*             (counted, INFO line), not a violation of the property text. *)
+(*  [ev |-> "candbatch", e, entry, corr, accepted, schema, cols, nrows]    *)
 (*     RecordBatch::try_new(_with_options) on schema/column candidates     *)
 (*                                                                         *)
 (* The converse (rejected although WellFormed) is legitimate strictness    *)
@@ -31,41 +36,57 @@ EXTENDS ArrowLayout, TraceBase
 
 VARIABLE l
 
-Cand(ev) == IF ev.aligns THEN Realigned(ev.d) ELSE ev.d
+(* A declared null count of 0 means "no validity bitmap": the builder drops the  *)
+(* bitmap without looking at it (arrow-data data.rs `build`: `.filter(|b|        *)
+(* b.null_count() != 0)`), as the C Data Interface allows ("if null_count is 0   *)
+(* the validity buffer may be omitted").  Entry points that take a declared      *)
+(* null count therefore see such a candidate as one without a bitmap.            *)
+TakesDeclaredCount(ev) == ev.e \in {"build", "build_align", "vfull"}
+NoBitmap == [present |-> FALSE, nbits |-> 0, boff |-> 0, bits |-> <<>>, nc |-> 0]
+Norm(ev) == IF TakesDeclaredCount(ev) /\ ev.d.nulls.present /\ ev.d.nulls.nc = 0
+            THEN [ev.d EXCEPT !.nulls = NoBitmap] ELSE ev.d
+
+Cand(ev) == IF ev.aligns THEN Realigned(Norm(ev)) ELSE Norm(ev)
 
 CandOK(ev) ==
   ev.accepted => /\ WellFormed(Cand(ev))
                  /\ ev.has_got => WellFormed(ev.got)
-                 /\ ev.after = "ok"
+                 /\ ~ev.crashed
 
 (***************************************************************************)
-(* Known findings (known_findings.txt).  Each is identified as: an         *)
-(* ArrayData-level entry point accepted a candidate that is well-formed    *)
-(* except for exactly the one rule the crate does not check.               *)
+(* Known findings (known_findings.txt).  Each is identified as: an entry   *)
+(* point of the named class accepted a candidate that is well-formed       *)
+(* except for exactly the one rule that entry point does not check.        *)
 (***************************************************************************)
 OnlyBreaks(ev, rule) == ~WellFormed(Cand(ev)) /\ WF(Cand(ev), {rule})
 
 KF(ev) ==
-  IF ~(ev.accepted /\ ev.cls = "data") THEN ""
-  ELSE IF OnlyBreaks(ev, "union-ids")     THEN "C09-union-ids-offsets-unchecked"
-  ELSE IF OnlyBreaks(ev, "ree-cover")     THEN "C09-ree-length-unchecked"
-  ELSE IF OnlyBreaks(ev, "fsl-offset")    THEN "C09-fsl-child-offset-ignored"
-  ELSE IF OnlyBreaks(ev, "struct-offset") THEN "C09-struct-child-offset-ignored"
+  IF ~ev.accepted THEN ""
+  ELSE IF ev.cls = "data" /\ OnlyBreaks(ev, "union-ids")     THEN "C09-union-ids"
+  ELSE IF ev.cls = "data" /\ OnlyBreaks(ev, "ree-cover")     THEN "C09-ree-cover"
+  ELSE IF ev.cls = "data" /\ OnlyBreaks(ev, "fsl-offset")    THEN "C09-fsl-offset"
+  ELSE IF ev.cls = "data" /\ OnlyBreaks(ev, "struct-offset") THEN "C09-struct-offset"
+  ELSE IF ev.e = "typed" /\ ev.fam = "union" /\ OnlyBreaks(ev, "union-kid-types") THEN "C09-union-kid-types"
   ELSE ""
 
-(* report only: rejected although well-formed (constructors may be stricter) *)
-Count(ev) == IF ~ev.accepted /\ WellFormed(Cand(ev)) THEN TLCSet(1, TLCGet(1) + 1) ELSE TRUE
+(* report only: rejected although well-formed (constructors may be stricter); *)
+(* a panic (not a crash) while exercising an accepted well-formed result     *)
+Count(ev) ==
+  /\ IF ~ev.accepted /\ WellFormed(Cand(ev)) THEN TLCSet(1, TLCGet(1) + 1) ELSE TRUE
+  /\ IF ev.accepted /\ ev.panicked /\ WellFormed(Cand(ev)) THEN TLCSet(2, TLCGet(2) + 1) ELSE TRUE
 
 BatchOK(ev) == ev.accepted => BatchWellFormed(ev.schema, ev.cols, ev.nrows)
 
-Init == l = 1 /\ TLCSet(1, 0)
+Init == l = 1 /\ TLCSet(1, 0) /\ TLCSet(2, 0)
 Next == /\ l <= Len(Rec)
         /\ l' = l + 1
         /\ LET ev == Rec[l] IN
-           CASE ev.ev = "cand"      -> JudgeKF(CandOK(ev), l, ev.entry \o " " \o ev.corr, KF(ev)) /\ Count(ev)
-             [] ev.ev = "candbatch" -> Judge(BatchOK(ev), l, ev.entry \o " " \o ev.corr)
+           CASE ev.ev = "cand"      -> JudgeKF(CandOK(ev), l, ev.e, KF(ev)) /\ Count(ev)
+             [] ev.ev = "candbatch" -> Judge(BatchOK(ev), l, ev.e)
              [] OTHER               -> Judge(FALSE, l, "unknown event kind")
 Spec == Init /\ [][Next]_l
 
-Post == AllConsumed /\ PrintT(<<"INFO", "rejected_but_wellformed", TLCGet(1)>>)
+Post == /\ AllConsumed
+        /\ PrintT(<<"INFO", "rejected_but_wellformed", TLCGet(1)>>)
+        /\ PrintT(<<"INFO", "panic_on_wellformed", TLCGet(2)>>)
 =============================================================================
